@@ -56,9 +56,12 @@ package htmldoc
 
 // ---- C19: elements already emitted must not share a backing array with accumulators that keep growing ----
 //@ func (*Reader) traverseNodeFiltered
-//@   property C19
-//@   flags frameonly, noalias
+//@   property C19, C15
+//@   flags noalias, nosafety
 //@   fresh listItems
+// C15: a list element restores the kind (ordered/unordered) and the nesting level of the enclosing list when it closes,
+// so a nested list cannot change how the items of its parent are rendered
+//@   atreturn#6 enclosing_list_kind_and_level_restored: ctx.listOrdered == prevOrdered && ctx.listLevel == prevLevel
 
 //@ func (*Reader) traverseNode
 //@   property C19
